@@ -729,8 +729,8 @@ def run(ctx: vlib.Ctx):
                                   "-Q", "props", "VerifProps", "VerifProps.C05_errors", "VerifProps.C05_typed", "VerifProps.C05_xtyped", "VerifProps.C05_emit", "VerifProps.C05_fieldblock", "VerifProps.C05_discr_emit", "VerifProps.C05_handlers"],
                                  cwd=vlib.COQ, timeout=1530)
         ok = rc == 0 and "Axioms: <none>" in log
-        ctx.obligation("coqchk VerifProps.C05_errors C05_typed C05_handlers (Axioms: <none>)", ok, log[-400:])
-        ctx.trusted.append("coqchk -o on C05_errors + C05_typed + C05_handlers: " + ("Axioms: <none>" if ok else "FAILED " + log[-200:]))
+        ctx.obligation("coqchk VerifProps.C05_errors C05_typed C05_xtyped C05_emit C05_fieldblock C05_discr_emit C05_handlers (Axioms: <none>)", ok, log[-400:])
+        ctx.trusted.append("coqchk -o on C05_errors + C05_typed + C05_xtyped + C05_emit + C05_fieldblock + C05_discr_emit + C05_handlers: " + ("Axioms: <none>" if ok else "FAILED " + log[-200:]))
         if not ok:
             ctx.not_shown("coqchk VerifProps.C05_errors/C05_typed", log[-800:])
 
